@@ -133,3 +133,14 @@ def ftruncate (n : Nat) : FileM Unit := do
 def runOn (m : FileM α) (e : Env) (d : Bytes) : Except PyErr α × FS := m e { data := d }
 
 end Mutagen
+
+namespace Mutagen
+
+/-- `@convert_error(exc_src, exc_dest)`: exceptions of class `src` leave as `dst` (the state
+effects stay) -/
+def convertError (src : PyErr → Bool) (dst : PyErr) (m : FileM α) : FileM α :=
+  fun e s => match m e s with
+    | (.ok a, s') => (.ok a, s')
+    | (.error err, s') => if src err then (.error dst, s') else (.error err, s')
+
+end Mutagen
